@@ -1,8 +1,41 @@
-from harness import sendpath
+from harness import sendpath, core, sched, e2ekit
+
+
+def keepalive_callback_failure(r):
+    """An application callback raising for a keep-alive pong (full default stack, virtual time): the ping was answered, so the keep-alive
+    must not close the connection at the next tick, and later pings / pongs go on normally."""
+    from harness.props import c16
+    roots = e2ekit.Roots()
+    try:
+        for npings in (1, 2):
+            r.case(("keepalive-callback-failure", npings))
+            r.cov["traces_validated_against_impl"] += 1
+            w = c16.World(True, True)
+            hist = [{"name": "ConnectRequest"}, {"name": "DispatcherConnected"}, {"name": "Success"}]
+            for i in range(1, npings + 2):
+                hist += [{"name": "PingTick"}, {"name": "Pong", "id": i}]
+            hist += [{"name": "PingTick"}]
+            try:
+                w.start()
+                w.raise_on_pong = True
+                for act in hist:
+                    w.do(act)
+                disc = [x for x in w.wire if x[0] == "disconnect"]
+                pings = [x for x in w.wire if x[0] == "ping"]
+                other = [p for p in w.problems if p[0] != "receive-raised"]
+                if disc or "disconnected" in w.app or len(pings) != npings + 2 or other:
+                    r.violation("keepalive:closed-after-callback-failure", "history %s with the application raising for every pong: dispatcher calls %s, application saw %s, %s" % (
+                        [h["name"] for h in hist], [x[0] for x in w.wire], w.app, other[:1]), {"history": hist})
+            except sched.Deadlock as e:
+                r.violation("wedged:keepalive-callback-failure", "history %s hangs: %s" % ([h["name"] for h in hist], e), {"history": hist})
+            finally:
+                w.close()
+    finally:
+        roots.close()
 
 
 def run():
-    return sendpath.run("C12")
+    return sendpath.run("C12", extra=keepalive_callback_failure)
 
 
 def replay(path):
